@@ -428,16 +428,45 @@ class Normalizer:
             st = Ren().visit(st)
             st = _Subst(mapping, a.kwarg.arg if a.kwarg else None, kws).visit(st)
             out.append(st)
+        def ret_assign(x):
+            return ast.Assign(targets=[ast.Name(id=retname, ctx=ast.Store())], value=x.value or ast.Constant(value=None))
+
+        def always_returns(stmts):
+            for x in stmts:
+                if isinstance(x, ast.Return):
+                    return True
+                if isinstance(x, ast.If) and x.orelse and always_returns(x.body) and always_returns(x.orelse):
+                    return True
+            return False
+
+        def conv(stmts):
+            # `return X` becomes `_ret = X`; what follows an early return moves into the other branch, so the control dependence survives the inlining
+            res = []
+            for i, x in enumerate(stmts):
+                if isinstance(x, ast.Return):
+                    res.append(ret_assign(x))
+                    return res
+                if isinstance(x, ast.If):
+                    eb, ee = always_returns(x.body), bool(x.orelse) and always_returns(x.orelse)
+                    body, orelse = conv(x.body), conv(x.orelse)
+                    if eb and not ee:
+                        res.append(ast.If(test=x.test, body=body or [ast.Pass()], orelse=orelse + conv(stmts[i + 1:])))
+                        return res
+                    if ee and not eb:
+                        res.append(ast.If(test=x.test, body=body + conv(stmts[i + 1:]), orelse=orelse))
+                        return res
+                    res.append(ast.If(test=x.test, body=body or [ast.Pass()], orelse=orelse))
+                    if eb and ee:
+                        return res
+                    continue
+                for fld in ('body', 'orelse', 'finalbody'):
+                    if isinstance(getattr(x, fld, None), list) and not isinstance(x, (ast.FunctionDef, ast.ClassDef)):
+                        setattr(x, fld, conv(getattr(x, fld)) or ([ast.Pass()] if fld == 'body' else []))
+                res.append(x)
+            return res
+        out = conv(out)
         for st in out:
-            for n in ast.walk(st):
-                for fld, val in ast.iter_fields(n):
-                    if isinstance(val, list):
-                        for i, x in enumerate(val):
-                            if isinstance(x, ast.Return):
-                                val[i] = ast.Assign(targets=[ast.Name(id=retname, ctx=ast.Store())],
-                                                    value=x.value or ast.Constant(value=None))
-        out = [ast.Assign(targets=[ast.Name(id=retname, ctx=ast.Store())], value=s.value or ast.Constant(value=None))
-               if isinstance(s, ast.Return) else s for s in out]
+            ast.fix_missing_locations(st)
         return out, retname
 
     def _expand_stmt(self, st):
@@ -461,6 +490,38 @@ class Normalizer:
                         n.end_lineno = getattr(st, 'end_lineno', st.lineno)
                         n.col_offset = getattr(st, 'col_offset', 0)
             return body
+        if isinstance(st, (ast.Expr, ast.Assign, ast.AugAssign, ast.Return)):
+            # helper calls nested inside the statement's expression (`rows.append(helper(row))`): hoisted into temporaries in front of the statement, in the
+            # order they appear (argument evaluation order), unless they sit in a part that is evaluated conditionally or repeatedly
+            nested = [n for n in ast.walk(st) if isinstance(n, ast.Call) and isinstance(n.func, ast.Name) and n.func.id in self.helpers and n is not getattr(st, 'value', None)]
+            if nested:
+                for n in nested:
+                    cur = getattr(n, '_parent', None)
+                    while cur is not None and cur is not st:
+                        if isinstance(cur, (ast.IfExp, ast.BoolOp, ast.ListComp, ast.GeneratorExp, ast.SetComp, ast.DictComp, ast.Lambda)):
+                            raise AnalysisError(f'line {st.lineno}: helper {n.func.id} is called inside a conditional / repeated expression - not modelled')
+                        cur = getattr(cur, '_parent', None)
+                pre = []
+                repl = {}
+                for n in sorted(nested, key=lambda x: (x.lineno, x.col_offset)):
+                    self.uid += 1
+                    tmp = f'_hoisted__h{self.uid}'
+                    pre.append(ast.Assign(targets=[ast.Name(id=tmp, ctx=ast.Store())], value=n, lineno=st.lineno, col_offset=0))
+                    repl[id(n)] = tmp
+
+                class Hoist(ast.NodeTransformer):
+                    def visit_Call(self_, node):
+                        if id(node) in repl:
+                            return ast.Name(id=repl[id(node)], ctx=ast.Load())
+                        return self_.generic_visit(node)
+                st2 = Hoist().visit(st)
+                out = []
+                for a in pre:
+                    ast.fix_missing_locations(a)
+                    out.extend(self._expand_stmt(a))
+                ast.fix_missing_locations(st2)
+                out.extend(self._expand_stmt(st2))
+                return out
         for n in ast.walk(st):
             if n is not st and isinstance(n, ast.Call) and isinstance(n.func, ast.Name) and n.func.id in self.helpers \
                     and not isinstance(st, (ast.If, ast.For, ast.While, ast.With, ast.Try)):
